@@ -27,7 +27,7 @@ use crate::binary::{
     calculate_shl,
     fast_ceildiv,
     fast_log2,
-    truncate_and_round,
+    truncate_and_round_digits,
     write_float_negative_exponent,
     write_float_positive_exponent,
 };
@@ -83,7 +83,8 @@ where
     //      formatting write control.
     let mantissa = float.mantissa();
     let radix = format.mantissa_radix();
-    let (mantissa, mantissa_bits) = truncate_and_round(mantissa, radix, options);
+    let (mantissa, mantissa_bits) =
+        truncate_and_round_digits(mantissa, radix, float.exponent(), options);
 
     // See if we should use an exponent if the number was represented
     // in scientific notation, AKA, `I.FFFF^EEE`. If the exponent is above
